@@ -58,16 +58,20 @@ def dirMean (xs ex : List α) : α :=
   | _ => Transc.atan2 (lsum (List.zipWith (fun x e => Transc.sin x * e) xs ex))
                       (lsum (List.zipWith (fun x e => Transc.cos x * e) xs ex))
 
+/-- the body of `mean` once the weights are exponentiated (`ex = exp(weights)`; a log-weight `-inf`
+    gives the weight 0) -/
+def meanEstE (lin circ : Nat) (cols : List (List α)) (ex : List α) : List α :=
+  (if lin > 0 then (List.range lin).map (fun r => linMean (rowOf cols r) ex) else []) ++
+  (if circ > 0 then (List.range circ).map (fun r => dirMean (rowOf cols (lin + r)) ex) else [])
+
 /-- `EstimatesExtraction::mean(particles, weights)` with `weights` in the log domain:
     linear rows `particles.topRows(lin) * exp(weights)` (only `if (linear_size_ > 0)`),
     circular rows `directional_mean(particles.bottomRows(circ), exp(weights))` (only `if (circular_size_ > 0)`). -/
 def meanEst (lin circ : Nat) (cols : List (List α)) (ws : List α) : List α :=
-  let ex := ws.map Transc.exp
-  (if lin > 0 then (List.range lin).map (fun r => linMean (rowOf cols r) ex) else []) ++
-  (if circ > 0 then (List.range circ).map (fun r => dirMean (rowOf cols (lin + r)) ex) else [])
+  meanEstE lin circ cols (ws.map Transc.exp)
 
 /-- `EstimatesExtraction::mode`: the column at the first maximal log-weight -/
-def modeEst (cols : List (List α)) (ws : List α) : List α :=
+def modeEst {β : Type} (cols : List (List β)) (ws : List α) : List β :=
   cols.getD (argmaxFirst ws) []
 
 /-- the vector `values` of `EstimatesExtraction::map`:
